@@ -438,6 +438,14 @@ fn missing_reset(r: &mut Rep) {
     unsafe { t.double_fault.set_handler_addr(VirtAddr::new(0x1234_5000)) };
     t.reset();
     chk(r, &t, "reset");
+    // reset() of a table that lives in recycled memory (every bit pattern is a valid table): all 256 gates, including the
+    // reserved vectors no API path can write, come out as clean non-present gates
+    for fill in [0xffu8, 0xa5, 0x80, 0x01] {
+        let mut raw: Box<InterruptDescriptorTable> = Box::new(InterruptDescriptorTable::new());
+        unsafe { core::ptr::write_bytes(&mut *raw as *mut InterruptDescriptorTable as *mut u8, fill, 4096) };
+        raw.reset();
+        chk(r, &raw, "reset(over recycled memory)");
+    }
     let m: Entry<HandlerFunc> = Entry::missing();
     if decode_gate(&gate_bytes(&m)).p || m.handler_addr().as_u64() != 0 {
         r.viol("C12|Entry::missing|present-or-nonzero", "missing", "");
